@@ -251,10 +251,15 @@ func genSf(r *rand.Rand, id int, scripted int) []string {
 	stride := uint64([]int{1, 2, 3, 1 << 18, 5<<18 + 7}[r.Intn(5)])
 	k := int64(1) // NewPdOracle consumed pd(0)
 	at := func(j int64) uint64 { return base + uint64(j)*stride }
-	if scripted == 1 {
+	if scripted == 1 || scripted == -1 {
+		// (scripted -1: the same schedule on a txn scope that has no cached timestamp yet)
 		// the stale single-flight schedule: A's flight receives pd(1) and is held; PD issues pd(2),pd(3)
 		// to others; B validates pd(3): joins A's flight, gets the older pd(1), must retry and pass
-		o = append(o, ln("sf", "begin", strconv.Itoa(id), "E", u(base), u(stride)))
+		m := "E"
+		if scripted == -1 {
+			m = "Ef"
+		}
+		o = append(o, ln("sf", "begin", strconv.Itoa(id), m, u(base), u(stride)))
 		o = append(o, ln("sf", "spawn", "0", u(at(1)), "0"), ln("sf", "issue"), ln("sf", "issue"),
 			ln("sf", "spawn", "1", u(at(3)), "1"), ln("sf", "spawn", "2", u(at(3)+1), "0"), ln("sf", "spawn", "3", u(at(2)), "0"),
 			ln("sf", "release", "ok"), ln("sf", "release", "ok"), ln("sf", "end"))
@@ -284,6 +289,9 @@ func genSf(r *rand.Rand, id int, scripted int) []string {
 		}
 		o = append(o, ln("sf", "release", "ok"), ln("sf", "release", "ok"), ln("sf", "end"))
 		return o
+	}
+	if r.Intn(3) == 0 {
+		mode += "f" // a never-used txn scope: nothing cached until somebody publishes
 	}
 	o = append(o, ln("sf", "begin", strconv.Itoa(id), mode, u(base), u(stride)))
 	spawned, pend := 0, false
@@ -316,7 +324,7 @@ func genSf(r *rand.Rand, id int, scripted int) []string {
 			blocked[spawned] = true
 			spawned++
 			pend = true // possibly
-			if mode == "E" {
+			if strings.HasPrefix(mode, "E") {
 				k++ // possibly consumed by a new flight; the generator's k is only a hint for choosing reads
 			}
 		case x < 7:
@@ -501,6 +509,9 @@ func generate(seed int64, thorough bool) []string {
 		sc := 0
 		if c < 10 {
 			sc = c + 1 // 1: stale single flight; 2..9: cancellation of one caller of a shared flight (E/R x 4 shapes)
+		}
+		if c == 10 {
+			sc = -1 // the stale single-flight schedule on a never-used txn scope
 		}
 		o = append(o, genSf(r, c, sc)...)
 	}
